@@ -33,8 +33,18 @@ def _on_alarm(signum, frame):
     raise Budget()
 
 
+HANGS = {'count': 0}
+
+
 def with_budget(seconds, fn, *args, **kw):
-    """Run fn under a CPU-time budget; returns ('ok', value) | ('raise', exc) | ('hang', None)."""
+    """Run fn under a CPU-time budget; returns ('ok', value) | ('raise', exc) | ('hang', None).
+    Hang governor: a tree on which calls hang makes a run cost (number of hanging cases) x budget.  The first hangs are
+    established with the full budget (they are the ones kept as witnesses: SuiteResult keeps the first five per class);
+    after 3 of them the budget shrinks to a tenth, after 40 to 0.05 s of CPU, so that the run still ends in minutes."""
+    if HANGS['count'] >= 40:
+        seconds = min(seconds, 0.05)
+    elif HANGS['count'] >= 3:
+        seconds = min(seconds, max(0.3, seconds / 10.0))
     old = signal.signal(signal.SIGVTALRM, _on_alarm)
     signal.setitimer(signal.ITIMER_VIRTUAL, seconds)
     try:
@@ -42,6 +52,7 @@ def with_budget(seconds, fn, *args, **kw):
             v = fn(*args, **kw)
             return ('ok', v)
         except Budget:
+            HANGS['count'] += 1
             return ('hang', None)
         except Exception as e:  # noqa
             return ('raise', e)
